@@ -1058,8 +1058,10 @@ def _build_joinedstr(
     parent: Module | Class,
     *,
     in_joined_str: bool = False,  # noqa: ARG001
+    in_formatted_str: bool = False,  # noqa: ARG001
     **kwargs: Any,
 ) -> Expr:
+    # The literal parts of an f-string nested in a replacement field are not quoted either.
     return ExprJoinedStr([_build(value, parent, in_joined_str=True, **kwargs) for value in node.values])
 
 
